@@ -66,7 +66,7 @@ ARGS, REP, NREP = None, None, {}
 
 
 def flag(name, what, inp):
-    NREP[name] = NREP.get(name, 0) + 1
+    NREP[name], NREP["#flags"] = NREP.get(name, 0) + 1, NREP.get("#flags", 0) + 1
     if name in KNOWN:
         REP.known(name, what, inp)
     elif NREP[name] <= 2:
@@ -353,9 +353,9 @@ class Run:
     def emitted_step(self, src):
         """Step with the action already placed in td['action'] by the sampler or a policy."""
         exp, outside = self.expected(self.td["action"])
-        act, before = self.td["action"].clone(), sum(NREP.values())
+        act, before = self.td["action"].clone(), NREP.get("#flags", 0)
         done = self.step(src, expect=exp)
-        if done and outside and before == sum(NREP.values()) and len(REP.errors) < 5:
+        if done and outside and before == NREP.get("#flags", 0) and len(REP.errors) < 5:
             REP.error(f"{self.label}.{src}: emitted action {act[outside[0]].tolist()} is outside the enumerated admitted set "
                       f"but all clauses hold (enumeration not exhaustive): {self.repro(outside[0])}")
         return done
@@ -374,11 +374,13 @@ class Run:
 
 # ---------------------------------------------------------------- drivers
 def make_env(kind, N, init="random", train=True):
-    """kind in {tsp2opt, tspkopt<K>, pdprr}; N = number of nodes (PDP: depot + 2*pairs)."""
+    """kind in {tsp2opt, tspkopt<K>, pdprr}; N = number of nodes (PDP: depot + 2*pairs). Constructing an env seeds the global torch RNG."""
+    NREP["#env"] = NREP.get("#env", 0) + 1
+    seed, gp = ARGS.seed * 100003 + NREP["#env"], dict(num_loc=N - (kind == "pdprr"), init_sol_type=init)
     if kind == "pdprr":
-        env = PDPRuinRepairEnv(generator_params=dict(num_loc=N - 1, init_sol_type=init), seed=ARGS.seed)
+        env = PDPRuinRepairEnv(generator_params=gp, seed=seed)
     else:
-        env = TSPkoptEnv(generator_params=dict(num_loc=N, init_sol_type=init), k_max=int(kind[7:] or 2) if kind != "tsp2opt" else 2, seed=ARGS.seed)
+        env = TSPkoptEnv(generator_params=gp, k_max=2 if kind == "tsp2opt" else int(kind[7:]), seed=seed)
     return env.train(train), kind
 
 
